@@ -8,9 +8,10 @@ From NV Require Import Model.Chars Model.Matcher Spec.Matching Spec.Statements M
 From NV Require Import Model.Utf32.
 From NV Require Import Model.PatternScore.
 From NV Require Import Model.PatternParse Spec.PatternParseSpec.
+From NV Require Import Spec.AppendSpec.
 From NV Require Import Model.Nucleo.
 From NV Require Import Model.ParSort.
-From NV Require Proofs.PrefixFacts.
+
 Extraction Language OCaml.
 Extraction "nv.ml" config_of preset_default preset_match_paths preset_set_match_paths
   to_lower is_upper normalize norm class class_norm cls_rank wf_char
@@ -24,7 +25,8 @@ Extraction "nv.ml" config_of preset_default preset_match_paths preset_set_match_
   spec_atoms fold_if spec_ignore_case spec_normalize is_ascii
   par_quicksort_model par_quicksort partition_in_blocks pib_spec worker_less r_flag r_list r_loads r_trace
   insertion_sort heapsort partial_insertion_sort partition_equal choose_pivot break_patterns
-  PrefixFacts.dp_taken
+  dp_taken
+  update_allowed last_fold_norm_ok pattern_matches
   layout_offsets view_lengths
   init_state count do_event step_thread lookup location_of
   Nucleo.init_nstate Nucleo.do_event Nucleo.enabled_tick Nucleo.active_injectors Nucleo.count_of Nucleo.published.
